@@ -84,11 +84,23 @@ def mkRenameB (s : Sys) (b : List Op) : Bool :=
       watchedDir s.fs true (parentOf p) && watchedDir s.fs true (parentOf q)
   | _ => false
 
+/-- "renamed again right after it arrived": `rename o q1; rename q1 q2` - `o` a directory outside the watched tree, `q1`
+    and `q2` free names in directories of the tree -/
+def moveInRenameB (s : Sys) (b : List Op) : Bool :=
+  match b with
+  | [.rename o q1, .rename q1' q2] =>
+    q1 == q1' && s.fs.isDir o && decide (2 ≤ o.length) && decide (2 ≤ q1.length) && decide (2 ≤ q2.length) &&
+      !s.fs.exists q1 && !s.fs.exists q2 && s.fs.isDir (parentOf q1) && s.fs.isDir (parentOf q2) && (o != q1) && (o != q2) &&
+      !isUnder o q1 && !isUnder o q2 && (q1 != q2) && !isUnder q1 q2 && !watchedDir s.fs true (parentOf o) &&
+      watchedDir s.fs true (parentOf q1) && watchedDir s.fs true (parentOf q2)
+  | _ => false
+
 /-- executable twin of `okBurst` / `pacedOK` (hypothesis of `paced_run`): every burst is a burst of file operations, a
-    nested creation burst, a directory created and immediately renamed, or one valid operation other than the removal of
+    nested creation burst, a directory created and immediately renamed, a directory that arrived from outside and is
+    renamed at once, or one valid operation other than the removal of
     the root -/
 def okBurstB (s : Sys) (b : List Op) : Bool :=
-  allFileB s b || allGrowB s b || mkRenameB s b ||
+  allFileB s b || allGrowB s b || mkRenameB s b || moveInRenameB s b ||
     (match b with
      | [op] => validOp s.fs op && (op != .rmdir ["W"])
      | _ => false)
